@@ -5,6 +5,7 @@ semicolon inserted before EOF, so one fuel value `fuelOf bs.length` serves the
 lexer loops, the entry loops and the nesting depth.
 -/
 import PubModel.C08.Lemmas2
+import PubModel.C08.Lemmas5
 import PubModel.C08.Lemmas3
 import PubModel.C08.Entry
 
@@ -123,7 +124,7 @@ omit hg in
 theorem toJSONToks_sat (fuel : Nat) (s : PS) (hm : s.m + 2 ≤ fuel) :
     (toJSONToks c fuel s).Sat Outcome.valueOrError := by
   unfold toJSONToks
-  refine (parseValue_spec c hc.errMax_pos hc.listBreaks fuel s hm).bind ?_
+  refine (parseValue_spec c hc.errMax_pos hc.listBreaks fuel 0 s hm).bind ?_
   intro s' _
   exact .ok (outcomeOf_valueOrError _ _ _)
 
@@ -131,7 +132,7 @@ omit hg in
 theorem decodeToks_sat (fuel : Nat) (s : PS) (hm : s.m + 2 ≤ fuel) :
     (decodeToks c fuel s).Sat Outcome.valueOrError := by
   unfold decodeToks
-  refine (parseValue_spec c hc.errMax_pos hc.listBreaks fuel s hm).bind ?_
+  refine (parseValue_spec c hc.errMax_pos hc.listBreaks fuel 0 s hm).bind ?_
   intro s' _
   split
   · exact .ok trivial
